@@ -226,7 +226,21 @@ type RApp = App<RecBank, MockApi, SnapStorage, RecCustom, RecWasm, RecStaking, R
 // ---------------------------------------------------------------------------------------------
 // message / query kinds
 
-pub const KINDS: [&str; 9] = ["bank", "wasm", "staking", "distribution", "custom", "ibc", "gov", "stargate", "any"];
+pub const KINDS: [&str; 11] = ["bank", "wasm", "staking", "distribution", "custom", "ibc", "gov", "stargate", "any", "wasm-funded", "wasm-zero-funds"];
+
+fn is_wasm(kind: &str) -> bool {
+    kind.starts_with("wasm")
+}
+
+/// Funds attached to the wasm message under test: the transfer they imply is a bank message in
+/// the sender's name and must go through the configured bank module like any other.
+fn funds_of(kind: &str) -> Vec<cosmwasm_std::Coin> {
+    match kind {
+        "wasm-funded" => vec![coin(1, "x")],
+        "wasm-zero-funds" => vec![coin(0, "x")],
+        _ => vec![],
+    }
+}
 pub const QKINDS: [&str; 7] = ["bank", "wasm", "custom", "staking", "ibc", "stargate", "grpc"];
 
 fn module_of(kind: &str) -> &'static str {
@@ -254,7 +268,7 @@ fn op_of(kind: &str) -> &'static str {
 fn msg_of<C: CustomMsg>(kind: &str, custom: Option<C>, callee: &str, recipient: &str) -> CosmosMsg<C> {
     match kind {
         "bank" => BankMsg::Send { to_address: recipient.to_string(), amount: vec![coin(1, "x")] }.into(),
-        "wasm" => WasmMsg::Execute { contract_addr: callee.to_string(), msg: to_json_binary(&Cmd { script: 9 }).unwrap(), funds: vec![] }.into(),
+        "wasm" | "wasm-funded" | "wasm-zero-funds" => WasmMsg::Execute { contract_addr: callee.to_string(), msg: to_json_binary(&Cmd { script: 9 }).unwrap(), funds: funds_of(kind) }.into(),
         "staking" => StakingMsg::Delegate { validator: "val".into(), amount: coin(7, "stake") }.into(),
         "distribution" => DistributionMsg::SetWithdrawAddress { address: recipient.to_string() }.into(),
         "custom" => CosmosMsg::Custom(custom.expect("custom message value")),
@@ -561,7 +575,12 @@ fn run_case(ctx: &Ctx, w: &mut RWorld, c: &Case) -> u64 {
     };
     // expectations
     let module = module_of(c.kind);
-    let module_fails = if c.kind == "wasm" { c.callee_fails || c.fail_mask & (1 << 7) != 0 } else { c.fail_mask & (1 << MODS.iter().position(|m| *m == module).unwrap()) != 0 };
+    let vetoed = is_wasm(c.kind) && c.fail_mask & (1 << 7) != 0;
+    // attached funds: the implied transfer is refused by a failing bank module, and an all-zero
+    // amount is refused by the bank keeper behind the recording module ("empty coins amount")
+    let funded = !funds_of(c.kind).is_empty();
+    let bank_blocks = funded && !vetoed && (c.kind == "wasm-zero-funds" || c.fail_mask & (1 << MODS.iter().position(|m| *m == "bank").unwrap()) != 0);
+    let module_fails = if is_wasm(c.kind) { c.callee_fails || vetoed || bank_blocks } else { c.fail_mask & (1 << MODS.iter().position(|m| *m == module).unwrap()) != 0 };
     let caught = c.origin != 0 && (c.mode == 2 || c.mode == 3);
     let want_ok = !module_fails || caught;
     let mut n = 1u64;
@@ -572,11 +591,10 @@ fn run_case(ctx: &Ctx, w: &mut RWorld, c: &Case) -> u64 {
     // (a migrate is a wasm execute-path message too; a sudo does not pass through Wasm::execute)
     let contract_runs = logv.iter().filter(|r| r.module == "contract" && r.op != "reply").count() - (c.origin >= 7) as usize;
     let wasm_execs: Vec<&Rec> = logv.iter().filter(|r| r.module == "wasm" && r.op == "execute").collect();
-    let vetoed = c.kind == "wasm" && c.fail_mask & (1 << 7) != 0;
-    if wasm_execs.len() != contract_runs + vetoed as usize {
+    if wasm_execs.len() != contract_runs + vetoed as usize + bank_blocks as usize {
         ctx.violation("c17:routing:wasm-message-bypassed-the-configured-wasm-module", json!({"case": cj(), "contract_entry_invocations": contract_runs, "wasm_module_execute_records": wasm_execs.iter().map(|r| format!("{:?}", r)).collect::<Vec<_>>()}));
     }
-    if c.kind != "wasm" {
+    if !is_wasm(c.kind) {
         let expected_sender = emitter.clone();
         let want = Rec { module, op: op_of(c.kind), sender: expected_sender, payload: payload_of(c.kind, &w.callee, &w.recipient) };
         // (bank is also used for nothing else here: no funds are attached anywhere)
@@ -587,17 +605,29 @@ fn run_case(ctx: &Ctx, w: &mut RWorld, c: &Case) -> u64 {
             );
         }
     } else {
-        if !module_recs.is_empty() {
+        if !funded && !module_recs.is_empty() {
             ctx.violation("c17:routing:wasm-message-reached-another-module", json!({"case": cj(), "module_records": module_recs.iter().map(|r| format!("{:?}", r)).collect::<Vec<_>>()}));
+        }
+        if funded {
+            // the transfer of the attached funds: one bank message in the emitter's name, unless the
+            // wasm module refused the message before
+            let want = Rec { module: "bank", op: "execute", sender: emitter.clone(), payload: format!("{:?}", BankMsg::Send { to_address: w.callee.clone(), amount: funds_of(c.kind) }) };
+            let ok = if vetoed { module_recs.is_empty() } else { module_recs.len() == 1 && *module_recs[0] == want };
+            if !ok {
+                ctx.violation(
+                    "c17:routing:attached-funds-not-through-the-configured-bank-module",
+                    json!({"case": cj(), "expected": if vetoed { "no module record (the wasm module refused the message)".to_string() } else { format!("exactly one record {:?}", want) }, "module_records": module_recs.iter().map(|r| format!("{:?}", r)).collect::<Vec<_>>()}),
+                );
+            }
         }
         let under_test: Vec<&&Rec> = wasm_execs.iter().filter(|r| r.payload.contains("\"script\":9")).collect();
         if under_test.len() != 1 || under_test[0].sender != emitter {
             ctx.violation("c17:routing:wasm", json!({"case": cj(), "expected": format!("one execute record in the configured wasm module sent by {}", emitter), "got": under_test.iter().map(|r| format!("{:?}", r)).collect::<Vec<_>>()}));
         }
         let callee_recs: Vec<&Rec> = logv.iter().filter(|r| r.module == "contract" && r.payload == format!("{} script=9", w.callee)).collect();
-        if vetoed {
+        if vetoed || bank_blocks {
             if !callee_recs.is_empty() {
-                ctx.violation("c17:routing:wasm-callee-ran-despite-module-failure", json!({"case": cj()}));
+                ctx.violation("c17:routing:wasm-callee-ran-despite-module-failure", json!({"case": cj(), "failing_module": if vetoed { "wasm" } else { "bank (transfer of the attached funds)" }}));
             }
         } else if callee_recs.len() != 1 || callee_recs[0].sender != emitter {
             ctx.violation("c17:routing:wasm", json!({"case": cj(), "expected": format!("callee {} invoked once by {}", w.callee, emitter), "got": callee_recs.iter().map(|r| format!("{:?}", r)).collect::<Vec<_>>()}));
@@ -613,7 +643,7 @@ fn run_case(ctx: &Ctx, w: &mut RWorld, c: &Case) -> u64 {
     }
     if c.origin == 0 {
         if let Ok(r) = &res {
-            if c.kind != "wasm" && r.data.as_ref().map(|d| d.to_vec()) != Some(module.as_bytes().to_vec()) {
+            if !is_wasm(c.kind) && r.data.as_ref().map(|d| d.to_vec()) != Some(module.as_bytes().to_vec()) {
                 ctx.violation("c17:outcome:module-response-not-returned", json!({"case": cj(), "data": r.data.as_ref().map(|d| show(d))}));
             }
         }
@@ -727,7 +757,7 @@ fn cases(tier: Tier) -> Vec<Case> {
                         if origin == 0 && with_earlier {
                             continue;
                         }
-                        let callee_variants: Vec<bool> = if kind == "wasm" { vec![false, true] } else { vec![false] };
+                        let callee_variants: Vec<bool> = if kind == "wasm" || kind == "wasm-funded" { vec![false, true] } else { vec![false] };
                         for callee_fails in callee_variants {
                             v.push(Case { fail_mask: mask, kind, origin, mode, with_earlier, callee_fails });
                         }
